@@ -352,4 +352,4 @@ class InvRangesAssembler(RangesAssembler):
                     'r1': r, 'r2': r, 'c1': c, 'c2': c, 'n1': n, 'n2': n,
                     'ref': ref, 'name': name, 'sheet_id': sheet_id
                 }, value.value[r - int(base['r1']), n - base['n1']])
-        return res
+        return res if len(res) > 1 else res[0]  # A single output is not a list.
